@@ -108,7 +108,11 @@ def detect(prop, md, sid, checks, conf):
             kinds = sorted(set(re.findall(r"violation \[[^\]]+\] (\S+?):? ", out)))
             viol = re.findall(r"^VIOLATION property=\S+ replay=(\S+)", out, re.M)
             results[c] = dict(exit=rc, violation_lines=len(viol), kinds=[os.path.basename(v).split("-case")[0] for v in viol])
-            print("check %s: exit %d, %d VIOLATION line(s) %s" % (c, rc, len(viol), results[c]["kinds"]))
+            if viol and os.environ.get("SEEDED_REPLAY", "1") == "1":
+                # the replay file must reproduce the violation on its own
+                rrc, rout = sh("./check %s --replay %s" % (c, viol[0]), cwd="/verif", timeout=7200)
+                results[c]["replay_exit"] = rrc
+            print("check %s: exit %d, %d VIOLATION line(s) %s replay_exit=%s" % (c, rc, len(viol), results[c]["kinds"], results[c].get("replay_exit")))
     finally:
         sh("git -C /repo checkout -- .")
     dst = "/verif/seeded/%s" % sid
